@@ -1156,6 +1156,43 @@ fn main() {
             drop(local);
             println!("{{\"stored\": {n}, \"dropped\": {}}}", DROPS.load(Ordering::SeqCst));
         }
+        // local_zst: zero-sized values with a destructor: one is overwritten (handed back), one removed, one left to the storage's Drop
+        "local_zst" => {
+            use std::sync::atomic::{AtomicUsize, Ordering};
+            static DROPS: AtomicUsize = AtomicUsize::new(0);
+            struct Z;
+            impl Drop for Z {
+                fn drop(&mut self) {
+                    _ = DROPS.fetch_add(1, Ordering::SeqCst);
+                }
+            }
+            let local = open_coroutine_core::coroutine::local::CoroutineLocal::default();
+            assert!(local.put("a", Z).is_none());
+            let prev = local.put("a", Z);
+            let handed_back = prev.is_some();
+            drop(prev);
+            assert!(local.put("b", Z).is_none());
+            let removed = local.remove::<Z>("b").is_some();
+            let before = DROPS.load(Ordering::SeqCst);
+            drop(local);
+            println!("{{\"created\": 3, \"overwritten_handed_back\": {handed_back}, \"removed_handed_back\": {removed}, \"dropped_before_storage_drop\": {before}, \"dropped_total\": {}}}", DROPS.load(Ordering::SeqCst));
+        }
+        // cond_far <tv_sec> <tv_nsec>: hooked pthread_cond_timedwait on a plain thread with a far-future deadline; the native
+        // call (fn_ptr) reports "signalled" at once. Prints the result and how often the native call was reached.
+        "cond_far" => {
+            use std::sync::atomic::{AtomicUsize, Ordering};
+            static CALLS: AtomicUsize = AtomicUsize::new(0);
+            extern "C" fn signalled(_c: *mut libc::pthread_cond_t, _m: *mut libc::pthread_mutex_t, _t: *const libc::timespec) -> c_int {
+                _ = CALLS.fetch_add(1, Ordering::SeqCst);
+                0
+            }
+            init_event_loops();
+            let f: extern "C" fn(*mut libc::pthread_cond_t, *mut libc::pthread_mutex_t, *const libc::timespec) -> c_int = signalled;
+            let ts = libc::timespec { tv_sec: num(2), tv_nsec: num(3) };
+            let r = syscall::pthread_cond_timedwait(Some(&f), std::ptr::null_mut(), std::ptr::null_mut(), &raw const ts);
+            println!("{{\"tv_sec\": {}, \"ret\": {r}, \"native_calls\": {}}}", num(2), CALLS.load(Ordering::SeqCst));
+            std::process::exit(0);
+        }
         _ => {
             eprintln!("unknown case {case}");
             std::process::exit(64);
